@@ -88,6 +88,14 @@ class Check(BaseCheck):
         tri = dict(kind="tri", v=v[used], t=remap[bt], k=4, lump=False, name="two-sheeted-boundary-of-solid-with-cavity", ivol=ivol)
         return [tet, tri]
 
+    def known_finding(self, k):
+        # F21: the same solid with a cavity, tetrahedra listed in mixed orientation (fixed distortion and fixed flips)
+        c = Check("quick", 0).cavity_cases()[0]
+        t = gen.flip_some(np.random.default_rng(int(k["input"]["flip_seed"])), c["t"], 0.5)
+        ev = np.array([1.0, 2.0])
+        res = core.call(shapedna.normalize_ev, mk("tet", c["v"], t), ev.copy(), "volume")
+        return res[0] == "ok" and abs(np.asarray(res[1])[0] / c["ivol"] ** (2.0 / 3.0) - 1.0) > 1e-6
+
     def correspond(self, drv, stats):
         import itertools
         fails = []
